@@ -440,6 +440,10 @@ PROPS["C07"] = {
               "version, random, one cipher suite, one compression method recovered, buffer consumed", bound="42 bytes; the four length octets literal, everything else symbolic", module=HM2, timeout=900),
             K("HandshakeMessage::decode header fields (14 B)", "c07_hs_msg_fields_14", "quick", "bounded", ["HandshakeMessage::decode"],
               "24-bit total length / fragment offset, message_seq, body recovered (RFC 6347 4.2.2)", bound="14 bytes; fragment_length literal 2", module=HM2, timeout=900),
+            K("parse_goodbye: every reason-length octet (literal text)", "c07_parse_goodbye_symbolic_reason_len", "thorough", "bounded", ["parse_goodbye"],
+              "Ok iff the declared reason length fits the body; a length pointing past the end is an error, never a panic", bound="count = 1, 8-byte body: source and reason-length octet symbolic, 3 literal text bytes", module=RM, timeout=1800),
+            K("parse_goodbye: reason-length boundary values", "c07_parse_goodbye_reason_len_boundary", "quick", "bounded", ["parse_goodbye"],
+              "length 3 (exact fit) accepted; 4 (one past the end) and 255 rejected; truncated source list rejected — errors, never panics", bound="count = 1, literal length octets 3 / 4 / 255, literal text, symbolic source", module=RM, timeout=600),
             K("parse_xor_address total (<= 20 B)", "c07_parse_xor_address_total", "quick", "bounded", ["parse_xor_address"],
               "Ok for every value; None exactly for short values / unknown family", bound="value length 0..20 (symbolic), any family", module=SM),
             K("set_extension total on a received 4-byte block", "c07_set_extension_total_4", "thorough", "bounded", ["RtpHeader::set_extension"],
